@@ -292,7 +292,7 @@ func (s *Script) IsP2PK() bool {
 		return false
 	}
 
-	if len(parts) == 2 && len(parts[0]) > 0 && parts[1][0] == OpCHECKSIG {
+	if len(parts) == 2 && len(parts[0]) > 0 && len(parts[1]) > 0 && parts[1][0] == OpCHECKSIG {
 		pubkey := parts[0]
 		version := pubkey[0]
 
@@ -349,6 +349,15 @@ func isP2PKHInscriptionHelper(parts [][]byte) bool {
 	if len(parts) < 13 {
 		return false
 	}
+	// zero length pushes decode to empty parts
+	for _, i := range []int{0, 1, 3, 4, 5, 6, 8, 10, 12} {
+		if len(parts[i]) == 0 {
+			return false
+		}
+	}
+	if len(parts[7]) < 3 {
+		return false
+	}
 	valid := parts[0][0] == OpDUP &&
 		parts[1][0] == OpHASH160 &&
 		parts[3][0] == OpEQUALVERIFY &&
@@ -361,7 +370,7 @@ func isP2PKHInscriptionHelper(parts [][]byte) bool {
 		parts[12][0] == OpENDIF
 
 	if len(parts) > 13 {
-		return parts[13][0] == OpRETURN && valid
+		return len(parts[13]) > 0 && parts[13][0] == OpRETURN && valid
 	}
 	return valid
 }
@@ -376,7 +385,7 @@ func (s *Script) ParseInscription() (*InscriptionArgs, error) {
 		return nil, err
 	}
 
-	if !isP2PKHInscriptionHelper(p) {
+	if !isP2PKHInscriptionHelper(p) || len(*s) < 25 {
 		return nil, ErrP2PKHInscriptionNotFound
 	}
 
@@ -412,7 +421,7 @@ func (s *Script) IsMultiSigOut() bool {
 		return false
 	}
 
-	if !isSmallIntOp(parts[0][0]) {
+	if len(parts[0]) == 0 || !isSmallIntOp(parts[0][0]) {
 		return false
 	}
 
